@@ -12,7 +12,9 @@ import (
 	"errors"
 	"fmt"
 	"runtime"
+	"strings"
 	"sync"
+	"sync/atomic"
 	"time"
 
 	"github.com/mongodb/ftdc"
@@ -31,11 +33,38 @@ func c06Total(entry string, nchunks, nsamples int) int {
 	return nsamples
 }
 
+// endlessReader delivers a stream and then, without end, documents of a type the reader skips (a live source that
+// keeps producing "other" documents): only Close or cancellation ends such a read
+type endlessReader struct {
+	head  []byte
+	other []byte
+	buf   []byte
+}
+
+func (e *endlessReader) Read(p []byte) (int, error) {
+	if len(e.buf) == 0 {
+		if e.head != nil {
+			e.buf, e.head = e.head, nil
+		} else {
+			e.buf = e.other
+		}
+	}
+	n := copy(p, e.buf)
+	e.buf = e.buf[n:]
+	return n, nil
+}
+
+var c06Endless = false
+
 // c06Open returns the iterator under test and the cancel function of its construction context.
 // For the per-chunk iterators the chunk reader is closed and gone before the baseline is taken.
 func c06Open(entry string, stream []byte) (srIter, context.CancelFunc, error) {
 	ctx, cancel := context.WithCancel(context.Background())
 	if entry != "sample" && entry != "ssample" {
+		if c06Endless {
+			other := encDoc([]elem{{"_id", &val{T: 0x09, I: 1}}, {"type", &val{T: 0x10, I: 2}}, {"doc", &val{T: 0x03, Doc: []elem{}}}})
+			return srOpen(entry, ctx, &endlessReader{head: append([]byte{}, stream...), other: other}), cancel, nil
+		}
 		return srOpen(entry, ctx, bytes.NewReader(stream)), cancel, nil
 	}
 	cctx, ccancel := context.WithCancel(context.Background())
@@ -110,6 +139,21 @@ func c06Run(entry string, stream []byte, k int, mode string, label string, occ i
 			}
 		})
 	}
+	// mode suffix "^": after the stop the producers are slowed down at their send points and the consumer drains at
+	// once, before anything else is waited for: a producer that looks at its context only when its buffer is full
+	// would now deliver everything that is left
+	drainFirst := false
+	var slow atomic.Bool
+	if len(mode) > 1 && mode[len(mode)-1] == '^' {
+		mode = mode[:len(mode)-1]
+		drainFirst = true
+		srInstallHook(func(l string) {
+			s.hook(l)
+			if slow.Load() && (l == "ss.send" || l == "cw.send" || l == "mw.send") {
+				time.Sleep(40 * time.Microsecond)
+			}
+		})
+	}
 	defer uninstallSched()
 	it, cancel, err := c06Open(entry, stream)
 	if err != nil {
@@ -155,6 +199,18 @@ func c06Run(entry string, stream []byte, k int, mode string, label string, occ i
 		it.Close()
 		it.Close()
 	}
+	if drainFirst {
+		slow.Store(true)
+		s.releaseStall()
+		if !hung {
+			var h2 bool
+			o.further, h2 = c06Read(it, -1, 4*time.Second)
+			if h2 {
+				o.watchdog = true
+			}
+			hung = true // the drain is done: not again below
+		}
+	}
 	s.releaseStall()
 	t0 := time.Now()
 	deadline := t0.Add(2 * time.Second)
@@ -177,8 +233,22 @@ func c06Run(entry string, stream []byte, k int, mode string, label string, occ i
 			o.watchdog = true
 		}
 	}
+	if !o.watchdog {
+		// Next has returned false: it keeps returning false, at once (a consumer loop that checks twice, a second Close
+		// followed by Next)
+		n2, h3 := c06Read(it, 2, 2*time.Second)
+		o.further += n2
+		if h3 {
+			o.watchdog = true
+		}
+	}
 	cancel()
 	it.Close()
+	if !o.watchdog {
+		if _, h4 := c06Read(it, 1, 2*time.Second); h4 {
+			o.watchdog = true
+		}
+	}
 	return o, nil
 }
 
@@ -344,6 +414,30 @@ func c06Main(args []string) error {
 			}
 		}
 	}
+	// a source that never ends: three chunks, then documents of a skipped type for as long as anyone reads
+	{
+		good := srStream(3, 1)
+		abs := srAbstract(good, -1, -1, false)
+		abs = strings.TrimSuffix(abs, ":C") + strings.Repeat(",O", 1500) + ":C"
+		c06Endless = true
+		for _, entry := range []string{"chunks", "metrics", "structured", "matrix", "series"} {
+			for _, mode := range []string{"close", "cancel"} {
+				for _, k := range []int{0, 3} {
+					ob, err := c06Run(entry, good, k, mode, "", 0, nil)
+					if err != nil {
+						c06Endless = false
+						return err
+					}
+					if ob.leaked > 0 || ob.watchdog {
+						c06Failing++
+					}
+					o.printf("Q %s %d %d %d %s stall=%s read=%d total=%d leaked=%d further=%d watchdog=%d us=%d in=%s\n",
+						entry, -3, 1, k, mode, "-", ob.read, 3, ob.leaked, ob.further, b2i(ob.watchdog), ob.us, abs)
+				}
+			}
+		}
+		c06Endless = false
+	}
 	shapes := [][2]int{{1, 1}, {3, 1}, {1, 300}, {3, 300}, {40, 1}, {40, 300}}
 	sends := map[string][]string{
 		"chunks": {"rd.send", "rc.send"}, "metrics": {"rd.send", "rc.send", "cw.send", "ss.send"},
@@ -382,6 +476,22 @@ func c06Main(args []string) error {
 							return err
 						}
 						c06Line(o, entry, nc, ns, k, mode+"~", "", 0, ob)
+					}
+				}
+			}
+			// the per-chunk iterators: stop with the producer held and the buffer empty, then drain against a slow producer
+			if entry == "sample" || entry == "ssample" {
+				for _, occ := range []int{1, 2, 27} {
+					if occ > ns {
+						continue
+					}
+					for _, mode := range []string{"close^", "cancel^"} {
+						k := c06SafeK(entry, "ss.send", occ, ns, total)
+						ob, err := c06Run(entry, stream, k, mode, "ss.send", occ, nil)
+						if err != nil {
+							return err
+						}
+						c06Line(o, entry, nc, ns, k, mode, "ss.send", occ, ob)
 					}
 				}
 			}
